@@ -38,5 +38,6 @@ def run(ctx):
     lib_variant.sample_walks(ctx, P, tus=("genotypes",), floor=1)
     lib_module.name_agreement(ctx, P, classes=("Variant",), floor=5)
     lib_module.module_every_path(ctx, P, classes=("Variant",), floor=1)
+    lib_module.owned_arrays(ctx, P)          # Variant.genotypes is a read-only view of the decoder's buffer
     lib_py.facade_names(ctx, py, P, classes=(("genotypes", "Variant"),), floor=5)
     lib_mem.c_lints(ctx, ctx.program(), scopes.lib_scope("C03"))
